@@ -71,8 +71,27 @@ Definition ltype (ty : N) : Prop :=
 Definition QL (l t : N) (x : msg) : Prop :=
   In (m_to x) ids -> m_from x = l /\ m_term x = t /\ ltype (m_type x).
 
+(* nothing queued is lost or re-addressed (batching may extend a queued MsgAppend) *)
+Definition qkeep (ms ms' : list msg) : Prop :=
+  forall x, In x ms -> exists x', In x' ms' /\ m_to x' = m_to x /\ m_type x' = m_type x.
+
 Definition qpres (r r' : raft) : Prop :=
-  Forall (QL (r_id r) (r_term r)) (r_msgs r) -> Forall (QL (r_id r) (r_term r)) (r_msgs r').
+  (Forall (QL (r_id r) (r_term r)) (r_msgs r) -> Forall (QL (r_id r) (r_term r)) (r_msgs r')) /\
+  qkeep (r_msgs r) (r_msgs r').
+
+Lemma qkeep_refl ms : qkeep ms ms.
+Proof. intros x H. exists x. auto. Qed.
+
+Lemma qpres_id r r' : r_msgs r' = r_msgs r -> qpres r r'.
+Proof. unfold qpres. intros ->. split; [auto|apply qkeep_refl]. Qed.
+
+Lemma qpres_trans' a b c :
+  r_id b = r_id a -> r_term b = r_term a -> qpres a b -> qpres b c -> qpres a c.
+Proof.
+  intros I T [Q1 K1] [Q2 K2]. rewrite I, T in Q2. split; [intros F; apply Q2, Q1, F|].
+  intros x Hx. destruct (K1 x Hx) as (x1 & H1 & A1 & B1). destruct (K2 x1 H1) as (x2 & H2 & A2 & B2).
+  exists x2. split; [exact H2|split; congruence].
+Qed.
 
 Definition act_le (p p' : progress) : Prop := recent_active p = true -> recent_active p' = true.
 
@@ -106,14 +125,14 @@ Proof.
 Qed.
 
 Lemma LF_refl r : LF r r.
-Proof. split; [apply keeps_refl|]. split; [apply W_refl|]. intros H; exact H. Qed.
+Proof. split; [apply keeps_refl|]. split; [apply W_refl|]. apply qpres_id; reflexivity. Qed.
 
 Lemma LF_trans a b c : LF a b -> LF b c -> LF a c.
 Proof.
   intros (K1 & W1 & Q1) (K2 & W2 & Q2). split; [eapply keeps_trans; eassumption|].
   split; [eapply W_trans; eassumption|].
   pose proof (keeps_fields _ _ K1) as (T & _ & _ & _ & C). apply cfg_fields in C. destruct C as (I & _).
-  unfold qpres in *. rewrite T, I in Q2. intros H. apply Q2, Q1, H.
+  eapply qpres_trans'; eassumption.
 Qed.
 
 Lemma W_prs r r' :
@@ -153,7 +172,9 @@ Lemma push_qpres r x :
   (In (m_to x) ids -> m_from x = r_id r /\ m_term x = r_term r /\ ltype (m_type x)) ->
   qpres r (r <| r_msgs := r_msgs r ++ [x] |>).
 Proof.
-  intros Hx H. cbn. apply Forall_app. split; [exact H|]. constructor; [exact Hx|constructor].
+  intros Hx. split.
+  - intros H. cbn. apply Forall_app. split; [exact H|]. constructor; [exact Hx|constructor].
+  - intros y Hy. exists y. cbn. split; [apply in_or_app; left; exact Hy|auto].
 Qed.
 
 Lemma send_LF r m0 r' :
@@ -174,19 +195,26 @@ Lemma try_batching_Q r to (Q : msg -> Prop) :
   (forall m c, Q m -> Q (m <| m_commit := c |>)) ->
   forall msgs pr ents msgs' pr' b,
   try_batching r to msgs pr ents = Ok (msgs', pr', b) ->
-  (Forall Q msgs -> Forall Q msgs') /\ recent_active pr' = recent_active pr.
+  (Forall Q msgs -> Forall Q msgs') /\ recent_active pr' = recent_active pr /\ qkeep msgs msgs'.
 Proof.
   intros Q1 Q2. induction msgs as [|m rest IH]; intros pr ents msgs' pr' b H; cbn [try_batching] in H.
-  - okinv H. split; [auto|reflexivity].
+  - okinv H. split; [auto|]. split; [reflexivity|apply qkeep_refl].
   - dtop H.
     + destruct ents as [|e es].
-      * okinv H. split; [|reflexivity]. intros F. inversion F; subst. constructor; [apply Q2; assumption|assumption].
-      * dtop H; [okinv H; split; [auto|reflexivity]|].
-        ib H p1 Hp. okinv H. split; [|eapply ra_update_state; exact Hp].
-        intros F. inversion F; subst. constructor; [apply Q1; assumption|assumption].
+      * okinv H. split; [|split; [reflexivity|]].
+        { intros F. inversion F; subst. constructor; [apply Q2; assumption|assumption]. }
+        intros x [<-|Hx]; [eexists; split; [left; reflexivity|split; reflexivity]|].
+        exists x. split; [right; exact Hx|auto].
+      * dtop H; [okinv H; split; [auto|split; [reflexivity|apply qkeep_refl]]|].
+        ib H p1 Hp. okinv H. split; [|split; [eapply ra_update_state; exact Hp|]].
+        { intros F. inversion F; subst. constructor; [apply Q1; assumption|assumption]. }
+        intros x [<-|Hx]; [eexists; split; [left; reflexivity|split; reflexivity]|].
+        exists x. split; [right; exact Hx|auto].
     + ib H y Hy. destruct y as [[rest' p1] b1]. okinv H.
-      apply IH in Hy. destruct Hy as [A B]. split; [|exact B].
-      intros F. inversion F; subst. constructor; [assumption|apply A; assumption].
+      apply IH in Hy. destruct Hy as (A & B & C). split; [|split; [exact B|]].
+      { intros F. inversion F; subst. constructor; [assumption|apply A; assumption]. }
+      intros x [<-|Hx]; [exists m; split; [left; reflexivity|auto]|].
+      destruct (C x Hx) as (x' & Hx' & E). exists x'. split; [right; exact Hx'|exact E].
 Qed.
 
 Lemma maybe_send_append_LF r to pr ae r' pr' b :
@@ -207,23 +235,23 @@ Proof.
       dtop Hx; [discriminate|]. okinv Hx.
       apply send_LF in H1; [|left; split; [reflexivity|right; right; left; reflexivity]].
       destruct H1 as [A B]. split; [exact A|]. split; [exact B|reflexivity].
-    - okinv Hs. split; [apply msgs_only_refl|]. split; [intros F; exact F|reflexivity]. }
-  dtop H; [okinv H; split; [apply msgs_only_refl|split; [intros F; exact F|reflexivity]]|].
+    - okinv Hs. split; [apply msgs_only_refl|]. split; [apply qpres_id; reflexivity|reflexivity]. }
+  dtop H; [okinv H; split; [apply msgs_only_refl|split; [apply qpres_id; reflexivity|reflexivity]]|].
   dtop H; [apply Hsnap; exact H|].
   ib H ents He.
-  dtop H; [okinv H; split; [apply msgs_only_refl|split; [intros F; exact F|reflexivity]]|].
+  dtop H; [okinv H; split; [apply msgs_only_refl|split; [apply qpres_id; reflexivity|reflexivity]]|].
   dtop H; [discriminate|].
   ib H t0 Ht0.
   destruct t0 as [t|e]; destruct ents as [ents|e'];
     try (apply Hsnap; exact H);
     try (destruct e'; try (apply Hsnap; exact H); okinv H;
-         split; [apply msgs_only_refl|split; [intros F; exact F|reflexivity]]).
+         split; [apply msgs_only_refl|split; [apply qpres_id; reflexivity|reflexivity]]).
   ib H y Hy. destruct y as [[msgs' pr1] batched].
   destruct batched.
   - okinv H. destruct (r_batch_append r); [|okinv Hy].
     apply (try_batching_Q r to (QL (r_id r) (r_term r))) in Hy;
       [|intros m e c Q; exact Q|intros m c Q; exact Q].
-    destruct Hy as [A B]. split; [unfold msgs_only; reflexivity|]. split; [exact A|exact B].
+    destruct Hy as (A & B & C). split; [unfold msgs_only; reflexivity|]. split; [split; [exact A|exact C]|exact B].
   - assert (Hp : recent_active pr1 = recent_active pr).
     { destruct (r_batch_append r); [|okinv Hy; reflexivity].
       apply (try_batching_Q r to (fun _ => True)) in Hy; [apply Hy|auto|auto]. }
@@ -250,7 +278,7 @@ Qed.
 Lemma LF_put r id p p' :
   get_pr r id = Some p -> act_le p p' -> LF r (put_pr r id p').
 Proof.
-  intros Hg Hl. split; [reflexivity|]. split; [eapply W_put; eassumption|]. intros F; exact F.
+  intros Hg Hl. split; [reflexivity|]. split; [eapply W_put; eassumption|]. apply qpres_id; reflexivity.
 Qed.
 
 (* after a msgs-only operation the progress map is the old one *)
@@ -280,8 +308,7 @@ Proof.
   apply IH in H. destruct H as (A2 & B2 & C2).
   split; [eapply msgs_only_trans; eassumption|]. split; [|congruence].
   pose proof (msgs_only_keeps _ _ A) as K. apply keeps_fields in K. destruct K as (T & _ & _ & _ & Cf).
-  apply cfg_fields in Cf. destruct Cf as (I & _). unfold qpres in *. rewrite T, I in B2.
-  intros F. apply B2, B, F.
+  apply cfg_fields in Cf. destruct Cf as (I & _). eapply qpres_trans'; eassumption.
 Qed.
 
 Lemma send_append_aggressively_LF r to r' : send_append_aggressively r to = Ok r' -> LF r r'.
@@ -323,11 +350,11 @@ Proof.
   intros H. split; [eapply maybe_commit_keeps; exact H|].
   unfold Raft.maybe_commit in H. ib H y Hy. destruct y as [l' b'].
   destruct b'; [destruct (get_pr r (r_id r)) as [p|] eqn:G|]; okinv H.
-  - split; [|intros F; exact F].
+  - split; [|apply qpres_id; reflexivity].
     eapply W_trans; [apply (W_prs r (r <| r_log := l' |>)); reflexivity|].
     apply (W_put (r <| r_log := l' |>) (r_id r) p); [exact G|apply act_le_eq, ra_update_committed].
-  - split; [apply W_prs; reflexivity|intros F; exact F].
-  - split; [apply W_prs; reflexivity|intros F; exact F].
+  - split; [apply W_prs; reflexivity|apply qpres_id; reflexivity].
+  - split; [apply W_prs; reflexivity|apply qpres_id; reflexivity].
 Qed.
 
 Lemma LF_same r r' :
@@ -336,7 +363,7 @@ Lemma LF_same r r' :
   r_msgs r' = r_msgs r -> LF r r'.
 Proof.
   intros K P T Hh He M. split; [exact K|]. split; [apply W_prs; assumption|].
-  unfold qpres. rewrite M. auto.
+  apply qpres_id. exact M.
 Qed.
 
 Lemma append_entry_LF r es r' b : append_entry r es = Ok (r', b) -> LF r r'.
@@ -622,7 +649,7 @@ Proof.
           - apply andb_prop in Hcv. destruct Hcv as [Hcv _]. apply N.eqb_eq in Erv, Hcv. rewrite Erv in Hcv. discriminate. }
         eapply LF_trans; [apply (Hpush (vote_resp r m (resp_type m) false (m_term m) (0, 0))); reflexivity|].
         split; [unfold keeps, core; cbn; rewrite Hvote; reflexivity|].
-        split; [|intros F; exact F].
+        split; [|apply qpres_id; reflexivity].
         split; [reflexivity|]. split; [reflexivity|]. split; [cbn; lia|]. split; [reflexivity|].
         intros id p Hp. exists p. split; [exact Hp|apply act_le_refl].
       - apply maybe_commit_by_vote_cases in Hm. destruct Hm as [E|([S|S] & _)]; [|cbn in S; congruence..].
@@ -642,7 +669,9 @@ Lemma send_shape r m0 r' : send r m0 = Ok r' ->
     m_type m' = m_type m0 /\ m_to m' = m_to m0 /\
     m_from m' = (if m_from m0 =? INVALID_ID then r_id r else m_from m0) /\
     (if is_vote_type (m_type m0) then m_term m' = m_term m0 /\ m_term m0 <> 0
-     else m_term m0 = 0 /\ (m_term m' = r_term r \/ m_term m' = 0)).
+     else m_term m0 = 0 /\
+          m_term m' = (if negb (m_type m0 =? MsgPropose) && negb (m_type m0 =? MsgReadIndex)
+                       then r_term r else 0)).
 Proof.
   unfold send. intros H. ib H m1 H1. okinv H. eexists. split; [reflexivity|].
   set (ma := if m_from m0 =? INVALID_ID then m0 <| m_from := r_id r |> else m0) in *.
@@ -652,7 +681,9 @@ Proof.
   destruct Ha as (A1 & A2 & A3 & A4). rewrite A1, A3 in H1.
   assert (Hm1 : m_type m1 = m_type m0 /\ m_to m1 = m_to m0 /\ m_from m1 = m_from ma /\
      (if is_vote_type (m_type m0) then m_term m1 = m_term m0 /\ m_term m0 <> 0
-      else m_term m0 = 0 /\ (m_term m1 = r_term r \/ m_term m1 = 0))).
+      else m_term m0 = 0 /\
+           m_term m1 = (if negb (m_type m0 =? MsgPropose) && negb (m_type m0 =? MsgReadIndex)
+                        then r_term r else 0))).
   { destruct (is_vote_type (m_type m0)).
     - destruct (m_term m0 =? 0) eqn:Ez; [discriminate|]. okinv H1. apply N.eqb_neq in Ez. auto 6.
     - destruct (m_term m0 =? 0) eqn:Ez; cbn [negb] in H1; [|discriminate]. apply N.eqb_eq in Ez.
@@ -698,7 +729,7 @@ Proof.
   intros Hto. rewrite A1. split; [|exact Ht].
   destruct (is_vote_type (m_type m0)).
   - destruct A4 as [E _]. rewrite E. destruct (Hv eq_refl) as [C|C]; [congruence|exact C].
-  - destruct A4 as [_ [E|E]]; lia.
+  - destruct A4 as [_ E]. rewrite E. destruct (_ && _); lia.
 Qed.
 
 Lemma qpresF_trans a b c : keeps a b -> qpresF a b -> qpresF b c -> qpresF a c.
@@ -897,4 +928,31 @@ Proof.
       ib H y Hy. okinv H. apply tkeeps_FF; [repeat split|apply qpresF_same; reflexivity|].
       rewrite Hnl. intros [X _]. discriminate. }
     okinv H. apply Hsame, Hnl.
+Qed.
+
+(* the leader's heartbeat is answered: one message to the sender, stamped with the
+   follower's id and term, that the leader counts as a sign of life *)
+Lemma follower_heartbeat_reply r m r' c :
+  r_state r = Follower -> m_type m = MsgHeartbeat -> m_term m = r_term r ->
+  step r m = Ok (r', c) ->
+  exists x, r_msgs r' = r_msgs r ++ [x] /\ m_to x = m_from m /\ m_from x = r_id r /\
+            m_term x = r_term r /\
+            (m_type x = MsgHeartbeatResponse \/ m_type x = MsgAppendResponse).
+Proof.
+  intros Hs Ht Hterm H. rewrite step_eq in H. unfold step_pre in H.
+  rewrite Hterm, N.ltb_irrefl in H.
+  assert (Hb : step_body r m = Ok (r', c)) by (destruct (r_term r =? 0); exact H).
+  clear H. unfold step_body in Hb. rewrite Hs in Hb. unfold step_follower in Hb. rewrite Ht in Hb.
+  change (MsgHeartbeat =? MsgHup) with false in Hb.
+  change ((MsgHeartbeat =? MsgRequestVote) || (MsgHeartbeat =? MsgRequestPreVote)) with false in Hb.
+  change (MsgHeartbeat =? MsgPropose) with false in Hb.
+  change (MsgHeartbeat =? MsgAppend) with false in Hb.
+  change (MsgHeartbeat =? MsgHeartbeat) with true in Hb. cbv iota in Hb.
+  ib Hb y Hy. okinv Hb. unfold handle_heartbeat in Hy. ib Hy l' Hl'.
+  dtop Hy.
+  - unfold send_request_snapshot in Hy. ib Hy t Ht'. destruct t; [|discriminate].
+    apply send_shape in Hy. destruct Hy as (x & -> & A1 & A2 & A3 & A4).
+    exists x. cbn in *. repeat split; auto. destruct A4 as [_ E]. exact E.
+  - apply send_shape in Hy. destruct Hy as (x & -> & A1 & A2 & A3 & A4).
+    exists x. cbn in *. repeat split; auto. destruct A4 as [_ E]. exact E.
 Qed.
